@@ -180,6 +180,10 @@ manifest = {
     'engines': [
         {'name': 'vcheck', 'path': 'vcheck', 'serves_properties': sorted(CLAIMED), 'kind_free_text':
          'python driver: TLC (exhaustive / simulate / trace validation) + Go harness in a scratch copy of /repo'},
+        {'name': 'e2e', 'path': 'vcheck E2E', 'serves_properties': ['C01', 'C02', 'C07', 'C09', 'C11', 'C12', 'C13'], 'kind_free_text':
+         'extra engine, not tied to one property: spec/Telemetry.tla composes Calendar, ModeFile/ConsentOps, Approval and WorkerChart into the whole pipeline '
+         '(Inc, Tick, SetMode, RunUploader, Merge, Chart) with EndToEnd / NothingInModeOff / LocalReportsComplete / MergeFaithful / ChartCounts checked exhaustively by TLC; '
+         'simulate and witness behaviours are replayed through the real counter package, uploader, upload endpoint and worker (./vcheck E2E --tier quick|thorough, evidence/E2E.json)'},
     ],
     'checks': checks,
     'not_applicable': na,
